@@ -194,7 +194,7 @@ func verdictFor(v *ev.Verdict, list bool, hist []histOp, remaining []int) {
 	for _, h := range hist {
 		ops = append(ops, porcupine.Operation{ClientId: h.client, Input: h.in, Call: h.call, Output: h.out, Return: h.rt})
 	}
-	res := porcupine.CheckOperationsTimeout(model(list), ops, 2*time.Second)
+	res := porcupine.CheckOperationsTimeout(model(list), ops, 500*time.Millisecond)
 	switch res {
 	case porcupine.Illegal:
 		sort.Slice(hist, func(i, j int) bool { return hist[i].call < hist[j].call })
